@@ -139,7 +139,7 @@ class NsConcWorld(World):
     ASSUMPTIONS = ["pre-emption granularity is the source line inside NameServer/MemoryStorage methods",
                    "with SqlStorage every storage call is one scheduling atom (no pre-emption inside sqlite)",
                    "histories have at most 8 operations so that the linearizability search is exhaustive"]
-    QUICK_RUNS = 8000
+    QUICK_RUNS = 40000
     CHUNK = 250
     SHRINK_LISTS = ["threads.0", "threads.1", "threads.2", "threads.3", "init"]
 
@@ -160,8 +160,9 @@ class NsConcWorld(World):
             return sorted(rng.sample(TAGS, rng.randint(1, 2)))
 
         init = []
+        p_init = rng.choice([0.4, 0.7, 1.0])
         for n in names:
-            if rng.random() < 0.6:
+            if rng.random() < p_init:
                 init.append({"op": "register", "name": n, "uri": uri(), "safe": False, "meta": meta()})
         focus = rng.choice(names)
 
@@ -176,12 +177,34 @@ class NsConcWorld(World):
                 return {"op": "remove", "prefix": rng.choice(["a.", "a", n])}
             if r < 0.72:
                 return {"op": "set_metadata", "name": n, "meta": meta()}
-            if r < 0.84:
-                return {"op": "lookup", "name": n, "meta": rng.random() < 0.5}
-            if r < 0.95:
+            if r < 0.82:
+                return {"op": "lookup", "name": n if rng.random() < 0.5 else rng.choice(names), "meta": rng.random() < 0.5}
+            if r < 0.92:
                 return {"op": "list", "prefix": rng.choice([None, "a.", "a"]), "meta": rng.random() < 0.5}
             return {"op": "count"}
 
+        if rng.random() < 0.3:
+            # focused shape: a multi-entry removal racing readers (count / lookup / list) and re-registrations
+            init = [{"op": "register", "name": n, "uri": uri(), "safe": False, "meta": meta()} for n in names]
+            threads = [[{"op": "remove", "prefix": rng.choice(["a.", "a"])}]]
+            for _ in range(nthreads - 1):
+                ops = []
+                for _ in range(rng.randint(1, 2)):
+                    r = rng.random()
+                    if r < 0.35:
+                        ops.append({"op": "count"})
+                    elif r < 0.7:
+                        ops.append({"op": "lookup", "name": rng.choice(names), "meta": rng.random() < 0.5})
+                    elif r < 0.85:
+                        ops.append({"op": "list", "prefix": rng.choice([None, "a."]), "meta": False})
+                    else:
+                        ops.append({"op": "register", "name": rng.choice(names), "uri": uri(), "safe": rng.random() < 0.5, "meta": meta()})
+                threads.append(ops)
+            while len(threads) < 4:
+                threads.append([])
+            return {"storage": storage, "init": init, "threads": threads,
+                    "p_line": rng.choice([0.1, 0.2, 0.35]) if storage == "memory" else rng.choice([0.3, 0.5]),
+                    "p_block": rng.choice([0.2, 0.5, 1.0])}
         threads = []
         budget = 8
         for _ in range(nthreads):
